@@ -17,7 +17,7 @@ NK_I8_PARTS(NK_DECL)
 #undef NK_DECL
 void w16s_case(); void w16u_case(); void w32s_case(); void w32u_case(); void w64s_case(); void w64u_case(); void w64ll_case();
 void float_case_f(); void float_case_d(); void float_case_l();
-void gmp_case();
+void gmp_case_z(); void gmp_case_q();
 
 // ---------------------------------------------------------------- operand generators
 template <typename N> inline N from_bits8(unsigned b) { N n = fresh<N>(); typedef typename Kind<N>::raw_t T; Kind<N>::rv(n) = (T) (unsigned char) b; return n; }
@@ -127,9 +127,11 @@ template <typename N> struct KindCase {
     if (hx::coin(20)) ys = xs;      // equal / related operands
     switch (which) {
     case 0: run_binary<N, Op_add>(xs, ys); break; case 1: run_binary<N, Op_sub>(xs, ys); break; case 2: run_binary<N, Op_mul>(xs, ys); break; case 3: run_binary<N, Op_div>(xs, ys); break;
-    case 4: run_binary<N, Op_idiv>(xs, ys); break; case 5: run_binary<N, Op_rem>(xs, ys); break;
+    case 4: idiv(xs, ys); break; case 5: run_binary<N, Op_rem>(xs, ys); break;
     case 6: gcdlcm(xs, ys, true); break; default: gcdlcm(xs, ys, false); break; }
   }
+  template <typename U = T> static typename std::enable_if<IsFlt<U>::value>::type idiv(const std::vector<N>& xs, const std::vector<N>& ys) { run_binary<N, Op_div>(xs, ys); }   // idiv_assign_r is not provided for floating point types
+  template <typename U = T> static typename std::enable_if<!IsFlt<U>::value>::type idiv(const std::vector<N>& xs, const std::vector<N>& ys) { run_binary<N, Op_idiv>(xs, ys); }
   template <typename U = T> static typename std::enable_if<IsFlt<U>::value || std::is_same<U, Q>::value>::type gcdlcm(const std::vector<N>& xs, const std::vector<N>& ys, bool) { run_binary<N, Op_add>(xs, ys); }   // gcd/lcm are integer operations
   template <typename U = T> static typename std::enable_if<!(IsFlt<U>::value || std::is_same<U, Q>::value)>::type gcdlcm(const std::vector<N>& xs, const std::vector<N>& ys, bool g) { if (g) run_binary<N, Op_gcd>(xs, ys); else run_binary<N, Op_lcm>(xs, ys); }
   static void unary(int n) {
@@ -215,9 +217,11 @@ template <typename T> struct BoundedMon {
       one("abs_assign", ex_abs(ax), d1, [&]() { N r; abs_assign(r, x); return r; });
       one("operator++", ex_add(ax, XQ(Q(1))), d1, [&]() { N r(x); ++r; return r; }); one("operator--", ex_sub(ax, XQ(Q(1))), d1, [&]() { N r(x); --r; return r; });
       if (::sgn(ax.q) >= 0) { Ex e = ex_sqrt(ax); if (e.v.root) { e.v.root = false; Z z; mpz_sqrt(z.get_mpz_t(), ax.q.get_num_mpz_t()); e.v.q = Q(z); }   // GMP configuration: integer square root (floor)
-        bool skip = false;
-        if (std::is_signed<T>::value && sizeof(T) >= 4 && ax.q * 4 > lim<N>().hi) {   // isqrt_rem overflows a signed T for radicands >= 2^(bits-2): run in a child first
-          std::string why; if (!survives([&]() { N r; sqrt_assign(r, x); }, why)) { skip = true; hx::checked(); hx::violation(std::string("C11.ub.sqrt_assign.") + tname<N>() + ":radicand-top-quarter", "sanitizer report / crash inside sqrt_assign<" + kname<N>() + ">(" + show(ax) + "): " + why); } }
+        static bool crashed = false; bool skip = crashed;
+        if (crashed && std::is_signed<T>::value && sizeof(T) >= 4 && ax.q * 4 > lim<N>().hi) hx::count("skipped.known_ub_class");
+        else skip = false;
+        if (!skip && std::is_signed<T>::value && sizeof(T) >= 4 && ax.q * 4 > lim<N>().hi) {   // isqrt_rem overflows a signed T for radicands >= 2^(bits-2): run in a child first
+          std::string why; if (!survives([&]() { N r; sqrt_assign(r, x); }, why)) { skip = true; crashed = true; hx::checked(); hx::violation(std::string("C11.ub.sqrt_assign.") + tname<N>() + ":radicand-top-quarter", "sanitizer report / crash inside sqrt_assign<" + kname<N>() + ">(" + show(ax) + "): " + why); } }
         if (!skip) one("sqrt_assign", e, d1, [&]() { N r; sqrt_assign(r, x); return r; }); }
       done += 6;
       for (unsigned e = 0; e < 10; ++e) { Desc de = desce(ax, e);
